@@ -3,6 +3,7 @@ import XcpProofs.WalkMore
 import XcpProofs.MirrorExample
 import XcpProofs.Overlay
 import XcpProofs.MultiSource
+import XcpProofs.MultiSourceExample
 /-! # C02 — exit 0 implies the destination tree mirrors the selected source tree
 
 Model slice: `targetBase` (cp's mapping rule), `walkEntry` (one operation per selected entry, by kind),
@@ -206,5 +207,13 @@ theorem several_sources_each_mirrored (fs : Fs) (c : Cfg) (texts : GiTexts) (des
       obsAt fs'.root e.path.names = some e.node.obs) :=
   ⟨multi_overlay fs c texts dest items fuel hd hn hg hnt hwf hdest hdd hfuel hsrc hnd hun hcomp hlen,
    multi_overlay_reads fs c texts dest items fuel hd hn hg hnt hwf hdest hdd hfuel hsrc hnd hun hcomp hlen⟩
+
+/-- the hypotheses of `several_sources_each_mirrored` are met by a concrete run of two sources, one merged into an existing
+`D/A` (a file overwritten, a file kept, a link added), one copied to a fresh `D/B` (with a sub-directory and a FIFO) -/
+theorem several_sources_hypotheses_are_satisfiable (texts : GiTexts) :
+    ∃ fs', runSources MultiSourceExample.fs0 MultiSourceExample.c0 texts MultiSourceExample.dest0
+        (MultiSourceExample.items0.map (·.path)) = ⟨.ok, fs'⟩ ∧
+      FsEq fs' { MultiSourceExample.fs0 with root := MultiSourceExample.expectedRoot } :=
+  MultiSourceExample.multi_instance texts
 
 end Xcp.C02
